@@ -644,6 +644,22 @@ fn more_forms(o: &mut Out, g: &mut Gen, only: Option<&Value>) {
         hue3!("Okhwb", $A, $B, |x: &[$A]| Okhwb::<$A>::new(x[0], x[1], x[2]), |c: Okhwb<$A>| c.into_format::<$B>(), |c: Okhwb<$A>| c.into_format::<$B>(), |d: Okhwb<$B>| vec![d.hue.into_inner(), d.whiteness, d.blackness]);
         hue3!("Lms", $A, $B, |x: &[$A]| Lms::<VonKries, $A>::new(x[0], x[1], x[2]), |c: Lms<VonKries, $A>| c.into_format::<$B>(), |c| Lms::<VonKries, $B>::from_format(c), |d: Lms<VonKries, $B>| vec![d.long, d.medium, d.short]);
     }; }
+    // the same with transparency (Hsva, Hsla, Hwba): four components, the transparency through FromStimulus as well
+    macro_rules! hue4 { ($name:expr, $A:ty, $B:ty, $C:ident, $f2:ident, $f3:ident) => {
+        if want!($name, "into", $A, $B) { for _ in 0..n { let xs = pick!($A, 4); emit::<$A, $B>(o, $name, "into", &xs, catch(|| {
+            let d: Alpha<$C<Srgb, $B>, $B> = Alpha { color: $C::<Srgb, $A>::new(xs[0], xs[1], xs[2]), alpha: xs[3] }.into_format();
+            vec![d.color.hue.into_inner(), d.color.$f2, d.color.$f3, d.alpha] })); } }
+        if want!($name, "from", $A, $B) { for _ in 0..n { let xs = pick!($A, 4); emit::<$A, $B>(o, $name, "from", &xs, catch(|| {
+            let d = Alpha::<$C<Srgb, $B>, $B>::from_format(Alpha { color: $C::<Srgb, $A>::new(xs[0], xs[1], xs[2]), alpha: xs[3] });
+            vec![d.color.hue.into_inner(), d.color.$f2, d.color.$f3, d.alpha] })); } }
+    }; }
+    macro_rules! floats4 { ($A:ty, $B:ty) => {
+        hue4!("Hsva", $A, $B, Hsv, saturation, value);
+        hue4!("Hsla", $A, $B, Hsl, saturation, lightness);
+        hue4!("Hwba", $A, $B, Hwb, whiteness, blackness);
+    }; }
+    floats4!(f32, f64);
+    floats4!(f64, f32);
     floats!(f32, f64);
     floats!(f64, f32);
     floats!(f32, f32);
